@@ -38,7 +38,31 @@ pub const TEXT_POOL: &[&str] = &[
     "nul\u{0000}x", "üñí", "\u{1F600}", "\\", "\"", "\n", "\\\\n", "a\\", "{}", "[\"x\"]", "\\u0041", "\u{2028}", "\u{7f}",
 ];
 
+/// Random Unicode scalar values with a bias to the awkward ones.
+pub fn unicode_text(r: &mut Rng) -> String {
+    let n = r.below(12) as usize;
+    let mut s = String::new();
+    for _ in 0..n {
+        let c = match r.below(10) {
+            0 => r.below(0x20) as u32,
+            1 => *r.pick(&[0x22u32, 0x5c, 0x2f, 0x7f, 0x80, 0x9f, 0xa0, 0xad, 0x2028, 0x2029, 0xfeff, 0xfffd, 0xffff, 0xd7ff, 0xe000, 0x10000, 0x10ffff, 0x301, 0x200d, 0x6e]),
+            2 | 3 => 0x20 + r.below(0x5f) as u32,
+            4 => 0x80 + r.below(0x780) as u32,
+            5 => 0x800 + r.below(0xd000) as u32,
+            6 => 0x10000 + r.below(0x100000) as u32,
+            _ => *r.pick(&[0x6eu32, 0x5c, 0x0a, 0x74, 0x75]),
+        };
+        if let Some(ch) = char::from_u32(c) {
+            s.push(ch);
+        }
+    }
+    s
+}
+
 pub fn text(r: &mut Rng) -> String {
+    if r.chance(1, 4) {
+        return unicode_text(r);
+    }
     if r.chance(1, 5) {
         let a = *r.pick(TEXT_POOL);
         let b = *r.pick(TEXT_POOL);
@@ -258,9 +282,10 @@ fn gen_level(
         }
     }
     let mut inspect = vec![];
-    if opts.inspections && depth == 0 {
+    if opts.inspections && (depth == 0 || r.chance(1, 2)) {
         for ii in 0..(1 + r.idx(2)) {
-            let name = format!("insp{ii}");
+            // unique across levels: every level's inspections dump <name>.link into the same directory
+            let name = if depth == 0 { format!("insp{ii}") } else { format!("insp{ii}-d{depth}-{}", r.below(1_000_000)) };
             inspect.push(InspSpec {
                 name: name.clone(),
                 exp_mat: vec![],
@@ -343,6 +368,9 @@ pub enum F {
     SharedSub,
     OddFileName,
     Fifo,
+    ExtraStranger,
+    UnknownSchemeFunc,
+    UnknownSchemeOwner,
     Misattributed,
     CallerJsonAlias,
     CallerEmpty,
@@ -389,6 +417,9 @@ pub fn fname(f: F) -> &'static str {
         F::SharedSub => "SHARED-SUBLAYOUT",
         F::OddFileName => "ODD-FILENAME",
         F::Fifo => "FIFO",
+        F::ExtraStranger => "EXTRA-STRANGER",
+        F::UnknownSchemeFunc => "UNKNOWN-SCHEME-FUNCTIONARY",
+        F::UnknownSchemeOwner => "UNKNOWN-SCHEME-OWNER",
         F::Misattributed => "MISATTRIBUTED",
         F::CallerJsonAlias => "CALLER-JSON-ALIAS",
         F::CallerEmpty => "CALLER-EMPTY",
@@ -652,8 +683,19 @@ pub fn apply_fault(t: &mut SupplyTrace, plan: &Plan, f: F, r: &mut Rng, prefer_s
                     clone.doc.signers = vec![kb];
                     clone.doc.ops.clear();
                     clone.subdir = format!("{}.{}", sname, keys::key(keyspecs[kb]).prefix());
-                    // the second delegation's own sub-directory stays empty / incomplete
-                    match r.below(3) {
+                    // the second delegation's own sub-directory stays empty / incomplete / dissents
+                    match r.below(4) {
+                        3 => {
+                            // valid inner evidence that reports other products for the last inner step
+                            let last = clone.layout.steps.last().map(|s| s.name.clone()).unwrap_or_default();
+                            for f in clone.files.iter_mut() {
+                                if f.name.starts_with(&format!("{}.", last)) {
+                                    if let Body::Link(l) = &mut f.body {
+                                        l.products.insert("dissent/inner".into(), digest_of(424_242, false));
+                                    }
+                                }
+                            }
+                        }
                         0 => clone.files.clear(),
                         1 => {
                             if !clone.files.is_empty() {
@@ -961,6 +1003,14 @@ pub fn apply_fault(t: &mut SupplyTrace, plan: &Plan, f: F, r: &mut Rng, prefer_s
                 }
                 let _ = fname_old;
             }
+            // delegated evidence keeps its inner links in the directory named after the file
+            for f in lv.files.iter_mut() {
+                if let Body::Layout(inner) = &mut f.body {
+                    if !inner.subdir.is_empty() && r.chance(3, 4) {
+                        inner.subdir = f.name.trim_end_matches(".link").to_string();
+                    }
+                }
+            }
             remove.sort();
             for fi in remove.into_iter().rev() {
                 lv.files.remove(fi);
@@ -1102,6 +1152,121 @@ pub fn apply_fault(t: &mut SupplyTrace, plan: &Plan, f: F, r: &mut Rng, prefer_s
                 doc.signers.push(x);
                 doc.ops.push(DocOp::SigShuffle(r.next()));
             }
+        }
+        F::ExtraStranger => {
+            // next to the genuine evidence of a step: one more link for it, validly signed by somebody
+            // who must not count (an outsider, or a functionary trusted for another step only), with
+            // other artifacts, filed under his own prefix
+            let x = new_key(&mut t.keys, r, ed_only, true);
+            let keyspecs = t.keys.clone();
+            let (lv, _) = pick_level(&mut t.root, r, prefer_sub);
+            if lv.layout.steps.is_empty() {
+                return false;
+            }
+            let si = r.idx(lv.layout.steps.len());
+            let step = lv.layout.steps[si].clone();
+            let fs: Vec<usize> = step_files(lv, &step.name).into_iter().filter(|i| matches!(lv.files[*i].body, Body::Link(_))).collect();
+            if fs.is_empty() {
+                return false;
+            }
+            let signer = match lv.layout.key_table.iter().copied().find(|k| !step.pubkeys.contains(k)) {
+                Some(w) if r.chance(1, 2) => w,
+                _ => x,
+            };
+            let mut nf = lv.files[fs[0]].clone();
+            nf.name = link_name(&step.name, &keyspecs, signer);
+            if lv.files.iter().any(|f| f.name == nf.name) {
+                return false;
+            }
+            nf.doc = DocSpec { signers: vec![signer], ops: vec![], pretty: false };
+            if let Body::Link(l) = &mut nf.body {
+                l.products.insert("stranger/payload".into(), digest_of(666, false));
+                if r.chance(1, 2) {
+                    l.materials.insert("stranger/input".into(), digest_of(667, false));
+                }
+            }
+            lv.files.push(nf);
+        }
+        F::UnknownSchemeFunc => {
+            // a functionary whose key is declared with a scheme the library does not implement is
+            // authorized for a step; the "evidence" under his prefix carries bytes nobody could have
+            // made with that key
+            let u = {
+                let spec = crate::keys::KeySpec { kind: crate::keys::KeyKind::RsaUnknown, seed: 0 };
+                match t.keys.iter().position(|k| *k == spec) {
+                    Some(i) => i,
+                    None => {
+                        t.keys.push(spec);
+                        t.keys.len() - 1
+                    }
+                }
+            };
+            let keyspecs = t.keys.clone();
+            let (lv, is_sub) = pick_level(&mut t.root, r, prefer_sub);
+            if prefer_sub && !is_sub {
+                return false;
+            }
+            if lv.layout.steps.is_empty() {
+                return false;
+            }
+            let si = r.idx(lv.layout.steps.len());
+            let sname = lv.layout.steps[si].name.clone();
+            let mut fs = step_files(lv, &sname);
+            let need = lv.layout.steps[si].threshold.max(1) as usize;
+            if fs.is_empty() || fs.len() < need {
+                return false;
+            }
+            if !lv.layout.key_table.contains(&u) {
+                lv.layout.key_table.push(u);
+            }
+            if !lv.layout.steps[si].pubkeys.contains(&u) {
+                lv.layout.steps[si].pubkeys.push(u);
+            }
+            r.shuffle(&mut fs);
+            // all but need-1 genuine links go; one file under the unknown-scheme key's prefix arrives
+            let n_bad = fs.len() - need + 1;
+            let victim = fs[0];
+            let mut remove: Vec<usize> = fs[1..n_bad].to_vec();
+            let doc = file_signers(&mut lv.files[victim]);
+            if doc.signers.is_empty() {
+                return false;
+            }
+            doc.ops.push(DocOp::Relabel { at: 0, to: u });
+            if r.chance(1, 2) {
+                doc.ops.push(DocOp::SigFlip { at: 0, bit: r.idx(64) });
+            }
+            lv.files[victim].name = link_name(&sname, &keyspecs, u);
+            remove.sort();
+            for fi in remove.into_iter().rev() {
+                lv.files.remove(fi);
+            }
+        }
+        F::UnknownSchemeOwner => {
+            // the caller trusts (also) a key declared with an unimplemented scheme; the layout carries
+            // a copy of another owner's signature under that key's id
+            let spec = crate::keys::KeySpec { kind: crate::keys::KeyKind::RsaUnknown, seed: 0 };
+            let u = match t.keys.iter().position(|k| *k == spec) {
+                Some(i) => i,
+                None => {
+                    t.keys.push(spec);
+                    t.keys.len() - 1
+                }
+            };
+            if t.root.doc.signers.is_empty() {
+                return false;
+            }
+            if r.chance(1, 2) && t.caller.len() > 1 {
+                // replaces an owner who then no longer needs to have signed
+                let j = r.idx(t.caller.len());
+                let gone = t.caller[j].1;
+                t.caller.remove(j);
+                t.root.doc.signers.retain(|s| *s != gone);
+                if t.root.doc.signers.is_empty() {
+                    return false;
+                }
+            }
+            t.caller.push((u, u));
+            t.root.doc.ops.push(DocOp::SigDupAs { at: 0, to: u });
         }
         F::Fifo => {
             let paths = stored_paths(&t.root, &t.keys);
